@@ -91,6 +91,13 @@ def carries_line(e, fi):
 
 
 _IDX = []
+_SOFT11 = []
+
+
+def _root_name(e):
+    while isinstance(e, (ast.Subscript, ast.Attribute)):
+        e = e.value
+    return e
 
 
 def _straight_value(fn, aug):
@@ -773,6 +780,9 @@ def run(ctx, idx):
             ctx.violate("C11.e", con, mod.rel, n.lineno, "%s is raised with lineno=%s inside a cleaner: that is the line of the command the argument REFERS to (the producer), not of the argument being cleaned (the `lineno` parameter) - the command-line tool marks a command that is not at fault" % (r[1].name, K.src(e)))
         elif carries_line(e, f):
             ctx.hold("C11.e", con, mod.rel, n.lineno, "lineno <- %s" % K.src(e))
+        elif isinstance(e, ast.Subscript) and isinstance(_root_name(e), ast.Name) and _root_name(e).id not in {a_.arg for a_ in f.node.args.args}:
+            # a line taken out of a local collection (errors gathered first, reported afterwards): what was put there is not followed
+            _SOFT11.append("C11.e: %s is raised with lineno=%s, an entry of a local collection; which line was stored there is outside what this rule follows" % (r[1].name, K.src(e)[:40]))
         else:
             ctx.violate("C11.e", con, mod.rel, n.lineno, "%s is raised %s: the error names no (or a wrong) source line and the CLI cannot mark it" % (
                 r[1].name, "without a line" if e is None else "with lineno=%s, which is not the line of the offending object" % K.src(e)))
@@ -894,3 +904,7 @@ def run(ctx, idx):
     # ------------------------------------------------------------------ g
     ctx.rule("C11.g", "The text reaches the lexer unchanged: Program.from_source hands its `source` parameter itself to Parser.parse, which hands its parameter itself to the PLY parser - no strip / splitlines / slicing in between, which would shift every reported line.")
     text_reaches_lexer(ctx, idx, "C11.g", "leading blank lines or line breaks removed there shift every line number reported afterwards away from the file")
+    if _SOFT11:
+        msg_ = _SOFT11[0]
+        del _SOFT11[:]
+        raise AnalysisError(msg_)
